@@ -1,22 +1,224 @@
 """Specifications of crate-local helper functions used at their call sites (assume), each verified
-against the helper's own body by a rule (guarantee).  Keys are body keys (parameter-name independent)."""
+against the helper's own body (guarantee) by `verify_models`: the model applied to the helper's own symbolic
+parameters must equal the value the abstract interpreter computes for the helper's body.
+Keys are body keys (independent of generic-parameter names and of the module an item lives in)."""
 
 from .poly import Poly
 
 
+def _adt(an, tail):
+    for p, a in an.db.adts.items():
+        if p.split("::")[-1] == tail:
+            return p, a
+    return None, None
+
+
+def _field(adt, name):
+    for i, f in enumerate(adt["fields"]):
+        if f["name"] == name:
+            return i
+    return None
+
+
+def _self_base(v):
+    """Base object of a `&self` / `&mut self` argument."""
+    if v[0] == "P" and not v[2].t:
+        if v[1][0] == "field":
+            return v[1][1], v[1][2]
+        return v[1], ()
+    return None, None
+
+
 def m_len(an, st, cs):
-    # GenericArray::<T, N>::len() == N      (guarantee: rules.check_views)
+    # GenericArray::<T, N>::len() == N
     if len(cs.targs) >= 2:
         return ("I", an.tenv.length(cs.targs[1]))
     return None
 
 
+def _mk_owner(an, tail, vals_by_name):
+    path, adt = _adt(an, tail)
+    if adt is None:
+        return None
+    ops = []
+    for f in adt["fields"]:
+        if f["name"] not in vals_by_name:
+            return None
+        ops.append(vals_by_name[f["name"]])
+    return ("A", ("adt", path, 0), tuple(ops))
+
+
+def m_consumer_new(an, st, cs):
+    return _mk_owner(an, "ArrayConsumer", {"array": cs.args[0], "position": ("I", Poly.const(0))})
+
+
+def m_intrusive_new(an, st, cs):
+    return _mk_owner(an, "IntrusiveArrayBuilder", {"array": cs.args[0], "position": ("I", Poly.const(0))})
+
+
+def _n_of(cs):
+    # <Owner<T, N>>::method : generic args are (['a,] T, N)
+    return cs.targs[-1] if cs.targs else None
+
+
+def _iter_position(an, st, cs, tail, array_is_ref, mutable):
+    path, adt = _adt(an, tail)
+    base, pre = _self_base(cs.args[0])
+    if adt is None or base is None:
+        return None
+    ia, ip = _field(adt, "array"), _field(adt, "position")
+    if ia is None or ip is None:
+        return None
+    n = an.tenv.length(_n_of(cs))
+    if array_is_ref:
+        av = an.read_cell(st, base, pre + (ia,), adt["fields"][ia]["ty"])
+        if av[0] != "P":
+            return None
+        arr = ("P", av[1], av[2], n)
+    else:
+        arr = ("P", ("field", base, pre + (ia,)), Poly.const(0), n)
+    it = ("V", "iter", "slice", arr, mutable)
+    pos = ("P", ("field", base, pre + (ip,)), Poly.const(0), None)
+    return ("A", "tuple", (it, pos))
+
+
+def m_consumer_iter_position(an, st, cs):
+    return _iter_position(an, st, cs, "ArrayConsumer", False, False)
+
+
+def m_intrusive_iter_position(an, st, cs):
+    return _iter_position(an, st, cs, "IntrusiveArrayBuilder", True, True)
+
+
+def m_builder_iter_position(an, st, cs):
+    return _iter_position(an, st, cs, "ArrayBuilder", False, True)
+
+
+def _is_full(an, st, cs, tail):
+    path, adt = _adt(an, tail)
+    base, pre = _self_base(cs.args[0])
+    if adt is None or base is None:
+        return None
+    ip = _field(adt, "position")
+    pos = an.read_cell(st, base, pre + (ip,), adt["fields"][ip]["ty"])
+    if pos[0] != "I":
+        return None
+    return ("B", ("cmp", "Eq", pos[1], an.tenv.length(_n_of(cs))))
+
+
+def m_intrusive_is_full(an, st, cs):
+    return _is_full(an, st, cs, "IntrusiveArrayBuilder")
+
+
+def m_builder_is_full(an, st, cs):
+    return _is_full(an, st, cs, "ArrayBuilder")
+
+
+def _iter_fields(an, st, cs):
+    path, adt = _adt(an, "GenericArrayIter")
+    base, pre = _self_base(cs.args[0])
+    if adt is None or base is None:
+        return None
+    ia, i0, i1 = _field(adt, "array"), _field(adt, "index"), _field(adt, "index_back")
+    if None in (ia, i0, i1):
+        return None
+    lo = an.read_cell(st, base, pre + (i0,), adt["fields"][i0]["ty"])
+    hi = an.read_cell(st, base, pre + (i1,), adt["fields"][i1]["ty"])
+    if lo[0] != "I" or hi[0] != "I":
+        return None
+    return base, pre, ia, lo[1], hi[1]
+
+
+def m_iter_len(an, st, cs):
+    r = _iter_fields(an, st, cs)
+    if r is None:
+        return None
+    return ("I", r[4] - r[3])
+
+
+def m_iter_len_fwd(an, st, cs):
+    # <&mut I as ExactSizeIterator>::len(&&mut I) forwards to I::len; only modelled for I = GenericArrayIter
+    t = cs.targs[0] if cs.targs else None
+    if t is None or t.get("k") != "ref" or t["t"].get("k") != "adt" or not t["t"]["def"].endswith("GenericArrayIter"):
+        return None
+    v = cs.args[0]
+    if v[0] != "P" or v[2].t:
+        return None
+    inner = an.read_cell(st, v[1], (), t)
+    if inner[0] != "P":
+        return None
+
+    class _C:
+        pass
+    c2 = _C()
+    c2.args = [inner]
+    c2.targs = [x for x in t["t"]["args"] if x.get("k") != "region"]
+    return m_iter_len(an, st, c2)
+
+
+def m_iter_as_slice(an, st, cs):
+    r = _iter_fields(an, st, cs)
+    if r is None:
+        return None
+    base, pre, ia, lo, hi = r
+    esz = an.tenv.size(cs.targs[0])
+    return ("P", ("field", base, pre + (ia,)), lo * esz, hi - lo)
+
+
 MODELS = {
     "GenericArray<$0,$1>::len": m_len,
+    "ArrayConsumer<$0,$1>::new": m_consumer_new,
+    "IntrusiveArrayBuilder<$0,$1>::new": m_intrusive_new,
+    "ArrayConsumer<$0,$1>::iter_position": m_consumer_iter_position,
+    "IntrusiveArrayBuilder<$0,$1>::iter_position": m_intrusive_iter_position,
+    "ArrayBuilder<$0,$1>::iter_position": m_builder_iter_position,
+    "IntrusiveArrayBuilder<$0,$1>::is_full": m_intrusive_is_full,
+    "ArrayBuilder<$0,$1>::is_full": m_builder_is_full,
+    "<GenericArrayIter<$0,$1> as core::iter::ExactSizeIterator>::len": m_iter_len,
+    "GenericArrayIter<$0,$1>::as_slice": m_iter_as_slice,
+    "GenericArrayIter<$0,$1>::as_mut_slice": m_iter_as_slice,
+}
+
+# std forwarding impls that are modelled (matched on the resolved def path)
+RES_MODELS = {
+    "<&mut I as core::iter::ExactSizeIterator>::len": m_iter_len_fwd,
 }
 
 # local callees without memory effects
-PURE_KEYS = {
-    "GenericArray<$0,$1>::len", "GenericArray<$0,$1>::as_slice", "GenericArray<$0,$1>::as_mut_slice",
+PURE_KEYS = set(MODELS) | {
+    "GenericArray<$0,$1>::as_slice", "GenericArray<$0,$1>::as_mut_slice",
     "<GenericArray<$0,$1> as core::ops::Deref>::deref", "<GenericArray<$0,$1> as core::ops::DerefMut>::deref_mut",
 }
+
+
+def verify_models(ctx, cfg, keys=None, rule="MODEL"):
+    """Guarantee side: for each modelled helper present in this config, the model applied to the helper's own
+    parameters equals the abstractly interpreted return value of its body (analysed with models disabled for itself)."""
+    from .absint import Analysis, CallSite
+    from .core import PROVED, REFUTED, MISSING
+    from .rules import vstr
+    db = ctx.db(cfg)
+    ok_all = True
+    for key in (keys or MODELS):
+        b = db.get(key)
+        if b is None:
+            continue  # helper not compiled in this configuration (or removed: its callers then fall back to opaque values)
+        models = {k: v for k, v in MODELS.items() if k != key}
+        an = Analysis(db, b, models).run()
+        st = an.entry_state()
+        # build a pseudo call site: arguments are the helper's own parameters
+        args = [st.mem[(("local", i), ())] for i in range(1, an.mir["arg_count"] + 1)]
+
+        class _C:
+            pass
+        cs = _C()
+        cs.args = args
+        cs.targs = [{"k": "param" if g["kind"] == "type" else ("cparam" if g["kind"] == "const" else "region"), "n": g["n"], "s": g["n"]} for g in b["generics"]]
+        cs.targs = [t for t in cs.targs if t["k"] != "region"]
+        cs.key = key
+        want = MODELS[key](an, st, cs)
+        got = [r["val"] for r in an.returns]
+        ok = want is not None and bool(got) and all(g == want for g in got)
+        ok_all = ok_all and ok
+        ctx.ob(rule, key, PROVED if ok else REFUTED, "helper body returns %s; model used at its call sites: %s" % (", ".join(vstr(g) for g in got), vstr(want)), at=b["at"], cfg=cfg)
+    return ok_all
